@@ -19,6 +19,16 @@ N7  uniform grid prior       -log(number of grid points); a fresh node has log_p
 
 Every clause is decided from the dataflow TermFlow extracts from the function itself (result term, ordered
 events, stores) — never from statement text.  Whatever is not recognised is an ANALYSIS-ERROR.
+
+How the shapes are made concrete without running anything: N1 and N3 interpret the functions on *concrete
+child lists* [c0 … c(n-1)] of symbolic arrays (n = 0..5), so `len`, emptiness tests and `range` bounds fold to
+constants whatever way the guards are written; N3 adds one symbolic run for the any-n loop bounds.
+
+Known limits (documented, not silent): in-place updates through an alias (`t = x; t += y`) are invisible to
+TermFlow's value semantics; positivity of the 1e-100 floor is read from the literal in the AST because
+TermFlow's rational constants collapse 1e-100 to 0; N7's "no data on the virtual root" is a scan of the node
+argument of every adding call for the root's name, not a proof over all node values; rewrites of the fold
+with functools.reduce / while, or of the refresh with a topological sort, are ANALYSIS-ERRORs by design.
 """
 import ast
 
@@ -658,6 +668,9 @@ def _analyse_backend(ctx, fi, sites):
             if bk != inner and bk != untrunc:
                 continue
             ca = A(ev.args[1])
+            if ca is not None:
+                from ..termflow import ordering as _ordering
+                ca = _ordering(ca)
             if ca is None or ca[0] != "cmp":
                 unrec("%s: partial store into the convolution result with index %s" % (q, show(ev.args[1])))
             if ev.guards:
@@ -925,7 +938,8 @@ def rule_N4(ctx):
     for g, va, b in arms:
         if ok and (len(va[2]) != 2 or sorted(va[2], key=repr) != sorted([Pk(0), Pk(1)], key=repr) or va[3]):
             ok, why = False, "%s is called with %s, not with the two children" % (va[1], ", ".join(show_key(z) for z in va[2]))
-    g = arms[0][0]
+    from ..termflow import ordering as _ordering
+    g = _ordering(arms[0][0])
     if ok:
         if g[0] != "cmp" or g[1] not in ("<", "<="):
             unrec("%s: dispatch test %s" % (disp.qualname, show_key(g)))
@@ -1122,11 +1136,6 @@ def rule_N6(ctx):
 
 # ----------------------------------------------------------------------------------------- N7
 ADDERS = {"add_data_point_to_node": 1, "_internal_add_data_point_to_node": 2, "_add_list_of_data_points_to_node": 1}
-
-
-def _prior_spec_ok(ctx, rule, label, fi, got, grid_term_src, like, what):
-    sp = spec(ctx.prog, grid_term_src, like)
-    return same(ctx, rule, label, fi, got, sp.result, what, stmt=what)
 
 
 def rule_N7(ctx):
